@@ -318,6 +318,13 @@ def run_shard(ctx, shard):
                     s = left + bytes(run) + right
                     n += 1
                     ctx.report(s, enc_laws(s))
+        # strings inside the cap whose *encoding* is longer than the cap (many isolated zeros): still to be decoded
+        for unit in (b"\x01\x00", b"\x00\x01", b"\x00\xff\x00", b"ab\x00"):
+            for total in (0x3000, 0x3000 - 1, 0x2F00, 9000, 0x2000 + 7):
+                s = (unit * (total // len(unit) + 1))[:total]
+                n += 1
+                ctx.count("enc_longer_than_cap", 1 if len(compress(s)) > CAP else 0)
+                ctx.report(s, enc_laws(s))
         ctx.bulk(n, n - 9 * 2, {"enc_runs": n}, ("left", "01", "run", 767, "right", "ff"))
     elif k == "enc_rand":
         def body(s):
